@@ -96,7 +96,8 @@ def gen_value(t, rng):
         raise TypeError(str(t))
     # front-end type (globals keep nsl.types objects)
     if hasattr(t, "GetMembers"):
-        return {k: gen_value(v, rng) for k, v in t.GetMembers().items()}
+        mem = t.GetMembers()
+        return {k: gen_value(mem.GetFieldType(k), rng) for k in list(mem.GetSymbolNames())}
     if t.IsArray():
         def build(sizes):
             if not sizes:
@@ -108,7 +109,7 @@ def gen_value(t, rng):
         if t.IsScalar():
             return scalar(t.GetName())
         if t.IsVector():
-            return [scalar(t.GetComponentType().GetName()) for _ in range(t.GetSize())]
+            return [scalar(t.GetComponentType().GetName()) for _ in range(t.GetComponentCount())]
         if t.IsMatrix():
             return [
                 [scalar(t.GetComponentType().GetName()) for _ in range(t.GetColumnCount())]
